@@ -377,36 +377,50 @@ Definition by_id (l : list task) : list task := sort_by (fun a b => N.leb (t_id 
 Definition pool_eqb (a b : list task) : bool := list_eqb task_eqb (by_id a) (by_id b).
 
 Record ckpt := mkCkpt {
-  k_env : env;
+  k_hold : list N;             (* tasks_to_hold / beyond the hold point, at the time of the pass *)
   k_now : Z;
   k_before : list task;        (* pool_view at entry of clock_expire_tasks, get_tasks() order *)
   k_gone : list N;             (* instances that were in the pool earlier and are not any more *)
   k_evs : list event;          (* what the real pass did, in order *)
-  k_after : list task;         (* pool at exit of clock_expire_tasks *)
+  k_after : option (list task);   (* pool at exit of clock_expire_tasks (None: identical to k_before) *)
   k_has_release : bool;        (* release_queued_tasks ran in this iteration (not stopping) *)
   k_released : list N;         (* ids returned by release_queued_tasks *)
   k_subs : list event;         (* EvSubmit for every job submission started in release_tasks_to_run *)
-  k_final : list task          (* pool at exit of release_tasks_to_run *)
+  k_final : option (list task)    (* pool at exit of release_tasks_to_run (None: identical to k_after) *)
 }.
 
-Definition case := list ckpt.
+(* the static tables of the workflow, then one checkpoint per main-loop iteration *)
+Definition case := (env * list ckpt)%type.
 
-Definition check_ckpt (k : ckpt) : bool :=
-  let '(p', g', evs) := clock_expire_tasks (k_env k) (k_now k) (k_before k) (k_gone k) in
+Definition with_hold (e : env) (h : list N) : env :=
+  mkEnv (e_children e) (e_next e) (e_expire e) (e_comp e) h.
+
+(* a recorded task: the completion expression is the one of its task definition *)
+Definition tk (e : env) (i : N) (st : status) (manual held queued runahead : bool) (ex : option Z)
+           (flow flow_wait : bool) (outs : list N) (inq prep trig : bool) : task :=
+  mkTask i st manual held queued runahead ex flow flow_wait outs
+         (match assoc N.eqb i (e_comp e) with Some c => c | None => CFalse end) inq prep trig.
+
+Definition after_of (k : ckpt) : list task := match k_after k with Some l => l | None => k_before k end.
+Definition final_of (k : ckpt) : list task := match k_final k with Some l => l | None => after_of k end.
+
+Definition check_ckpt (e0 : env) (k : ckpt) : bool :=
+  let e := with_hold e0 (k_hold k) in
+  let '(p', g', evs) := clock_expire_tasks e (k_now k) (k_before k) (k_gone k) in
   wf_state (k_before k) (k_gone k)
-  && pool_ok (k_before k) && pool_ok (k_after k) && pool_ok (k_final k)
-  && pool_eqb p' (k_after k)
+  && pool_ok (k_before k) && pool_ok (after_of k) && pool_ok (final_of k)
+  && pool_eqb p' (after_of k)
   && list_eqb event_eqb evs (k_evs k)
   && (if k_has_release k then
-        forallb (releasable (k_after k)) (k_released k)
-        && (let '(p2, evs2) := release_submit (k_released k) (k_after k) in
-            pool_eqb p2 (k_final k) && list_eqb event_eqb evs2 (k_subs k))
+        forallb (releasable (after_of k)) (k_released k)
+        && (let '(p2, evs2) := release_submit (k_released k) (after_of k) in
+            pool_eqb p2 (final_of k) && list_eqb event_eqb evs2 (k_subs k))
       else true).
 
-Definition check_case (c : case) : bool := forallb check_ckpt c.
+Definition check_case (c : case) : bool := forallb (check_ckpt (fst c)) (snd c).
 
 Definition model_out (c : case) :=
-  map (fun k => (clock_expire_tasks (k_env k) (k_now k) (k_before k) (k_gone k),
-                 release_submit (k_released k) (k_after k),
-                 (wf_state (k_before k) (k_gone k), pool_ok (k_before k), pool_ok (k_after k), pool_ok (k_final k))))
-      (filter (fun k => negb (check_ckpt k)) c).
+  map (fun k => (clock_expire_tasks (with_hold (fst c) (k_hold k)) (k_now k) (k_before k) (k_gone k),
+                 release_submit (k_released k) (after_of k),
+                 (wf_state (k_before k) (k_gone k), pool_ok (k_before k), pool_ok (after_of k), pool_ok (final_of k))))
+      (filter (fun k => negb (check_ckpt (fst c) k)) (snd c)).
